@@ -1207,6 +1207,9 @@ var _ rpc.Resources
 //@   requires predConnOK(c)
 //@   assumes predSubsOK(c)
 //@   resolves[C07] cb exactly-once
+// (a request whose subscription is refused - connection disposing, or the limit of direct
+// subscriptions reached - fails and leaves every count as it was)
+//@   ensures[C08] old(c.disposing) || (old(has(c.subs, rid)) && old(c.subs[rid].direct) >= 256) ==> (forall x *Subscription :: !fresh(x) ==> x.direct == old(x.direct))
 //@   safety[C15]
 //@ closure (*wsConn).GetResource#1
 //@   requires predConnOK(c) && predSubOf(sub, c)
@@ -1228,6 +1231,9 @@ var _ rpc.Resources
 //@   requires predConnOK(c)
 //@   assumes predSubsOK(c)
 //@   resolves[C07] cb exactly-once
+// (a request whose subscription is refused - connection disposing, or the limit of direct
+// subscriptions reached - fails and leaves every count as it was)
+//@   ensures[C08] old(c.disposing) || (old(has(c.subs, rid)) && old(c.subs[rid].direct) >= 256) ==> (forall x *Subscription :: !fresh(x) ==> x.direct == old(x.direct))
 //@   safety[C15]
 //@ closure (*wsConn).SubscribeResource#1
 //@   requires predConnOK(c) && predSubOf(sub, c)
